@@ -56,7 +56,9 @@ Definition sstep (env : list stats) (o : sprog) : list stats * nat :=     (* new
   | PEmpty => (env ++ [empty_stats], length env)
   | PBare => (env ++ [invalid_stats], length env)
   | PFill x v w => (upd x (fill_stats (g x) v w) env, x)
-  | PFillN x d wt => (upd x (stats_add (g x) (calc_stats d (if wt then all_equal (map snd d) else true))) env, x)
+  | PFillN x d wt => (match d with
+                      | [] => upd x (g x) env          (* an empty batch returns early: statistics untouched *)
+                      | _ => upd x (stats_add (g x) (calc_stats d (if wt then all_equal (map snd d) else true))) env end, x)
   | PAdd x y => (env ++ [stats_add (g x) (g y)], length env)
   | PIAdd x y => (upd x (stats_add (g x) (g y)) env, x)
   | PCopy x => (env ++ [g x], length env)
@@ -83,7 +85,7 @@ Definition vstep (env : list sval) (o : sprog) : list sval * nat :=
   | PEmpty => (env ++ [VData [] false], length env)
   | PBare => (env ++ [VInvalid], length env)
   | PFill x v w => (upd x (join (g x) (VData [(v, w)] false)) env, x)
-  | PFillN x d _ => (upd x (join (g x) (VData d false)) env, x)
+  | PFillN x d _ => (match d with [] => upd x (g x) env | _ => upd x (join (g x) (VData d false)) env end, x)
   | PAdd x y => (env ++ [join (g x) (g y)], length env)
   | PIAdd x y => (upd x (join (g x) (g y)) env, x)
   | PCopy x => (env ++ [g x], length env)
